@@ -81,6 +81,13 @@ func init() {
 		f.set(t, Val{T: []Term{x.sha256(x.normBytes(f.cur.heap, args[0]), args[0].T[2])}, Typ: t.Type()})
 	}
 	models["time.Now"] = func(f *frame, t *ssa.Call, args []Val) { f.setFreshResult(t) }
+	// locks have no sequential effect (scheduling is outside the model)
+	for _, n := range []string{"(*sync.Mutex).Lock", "(*sync.Mutex).Unlock", "(*sync.RWMutex).Lock", "(*sync.RWMutex).Unlock", "(*sync.RWMutex).RLock", "(*sync.RWMutex).RUnlock"} {
+		models[n] = func(f *frame, t *ssa.Call, args []Val) {
+			f.x.note("sync locks are no-ops: execution is modelled as single-threaded")
+			f.vals[t] = Val{Typ: t.Type()}
+		}
+	}
 	// io.ReadFull(r, buf): fills buf from the reader or fails; only buf's backing array is written
 	models["io.ReadFull"] = func(f *frame, t *ssa.Call, args []Val) {
 		x := f.x
